@@ -192,7 +192,15 @@ def gen_project(rng, knobs=None):
         nunits = rng.choice([1, 1, 2])
         for j in range(nunits):
             r = rng.random()
-            if r < 0.7:
+            if r < knobs.get("p_submodule", 0.0) and modnames:
+                # a submodule; its name may equal the name of a (different) module or another submodule
+                anc = rng.choice(modnames)
+                sname = rng.choice([m for m in modnames] + [f"sm{i}_{j}", "impl"])
+                u = uid()
+                units.append({"uid": u, "kind": "submodule", "name": sname, "ancestor": anc, "default": None,
+                              "uses": [], "vars": [gen_var(rng, uid, f"sv{i}{j}")], "types": [], "interfaces": [],
+                              "procs": [], "access": [], "doc": mk_doc(rng, u)})
+            elif r < 0.7:
                 mname = knobs.get("modname", lambda rng, i, j: f"m{i}_{j}")(rng, i, j)
                 if mname.lower() in [m.lower() for m in modnames]:
                     mname = f"{mname}_{i}_{j}"
@@ -302,7 +310,13 @@ def render_unit(u, ind=""):
         return render_proc(u, ind)
     out = []
     i2 = ind + "  "
-    if k == "module":
+    if k == "submodule":
+        out.append(f"{ind}submodule ({u['ancestor']}) {u['name']}")
+        out += _doc_after(u["doc"], i2)
+        for v in u["vars"]:
+            out += render_var(v, i2)
+        out.append(f"{ind}end submodule {u['name']}")
+    elif k == "module":
         out.append(f"{ind}module {u['name']}")
         out += _doc_after(u["doc"], i2)
         for us in u["uses"]:
